@@ -244,6 +244,29 @@ type verifC08Net struct {
 	mon      *verifC08Mon
 	delaySeed uint64
 	delayPct  int
+
+	// gate holds channel_reestablish messages of a channel whose links are
+	// being re-created by flap(): the fixture's mock server discards a
+	// message whose link is not registered yet, whereas a real peer buffers
+	// it until the link is active (msgStream).
+	gateMu sync.Mutex
+	gate   map[lnwire.ChannelID]chan struct{}
+}
+
+func (v *verifC08Net) holdReestablish(m lnwire.Message) {
+	x, ok := m.(*lnwire.ChannelReestablish)
+	if !ok {
+		return
+	}
+	v.gateMu.Lock()
+	g := v.gate[x.ChanID]
+	v.gateMu.Unlock()
+	if g != nil {
+		select {
+		case <-g:
+		case <-time.After(60 * time.Second):
+		}
+	}
 }
 
 func (v *verifC08Net) install(t *testing.T) {
@@ -274,6 +297,7 @@ func (v *verifC08Net) install(t *testing.T) {
 			if v.delayPct > 0 && int(verifMix(v.delaySeed^uint64(idx)<<32^c)%100) < v.delayPct {
 				time.Sleep(time.Duration(1+verifMix(c^v.delaySeed)%15) * time.Millisecond)
 			}
+			v.holdReestablish(m)
 			f(m)
 			return false, nil
 		}
@@ -417,6 +441,29 @@ func (v *verifC08Net) flap(t *testing.T, ab bool) error {
 	v.mon.epoch++
 	v.mon.logf("=== link flap ab=%v -> epoch %d", ab, v.mon.epoch)
 	v.mon.mu.Unlock()
+	gate := make(chan struct{})
+	v.gateMu.Lock()
+	if v.gate == nil {
+		v.gate = map[lnwire.ChannelID]chan struct{}{}
+	}
+	v.gate[chanID] = gate
+	v.gateMu.Unlock()
+	defer func() {
+		v.gateMu.Lock()
+		if v.gate[chanID] == gate {
+			delete(v.gate, chanID)
+			close(gate)
+		}
+		v.gateMu.Unlock()
+	}()
+	openGate := func() {
+		v.gateMu.Lock()
+		if v.gate[chanID] == gate {
+			delete(v.gate, chanID)
+			close(gate)
+		}
+		v.gateMu.Unlock()
+	}
 	restored := &clusterChannels{}
 	var err error
 	if ab {
@@ -471,6 +518,7 @@ func (v *verifC08Net) flap(t *testing.T, ab bool) error {
 		v.channels.bobToCarol, v.channels.carolToBob = restored.bobToCarol, restored.carolToBob
 		links["bob second"], links["carol"] = b, c
 	}
+	openGate()
 	return verifC08WaitEligible(links)
 }
 
@@ -719,7 +767,7 @@ func verifC08Case(t *testing.T, vc *verifCtx, i int) {
 	capSat := btcutil.Amount(btcutil.SatoshiPerBitcoin * 5)
 	v, err := verifC08Start(t, vc, r, capSat)
 	if err != nil {
-		t.Fatalf("cluster start: %v", err)
+		verifC08Fatalf(t, "cluster start: %v", err)
 	}
 	defer func() { v.n.stop() }()
 	start := v.snapshot()
@@ -729,7 +777,7 @@ func verifC08Case(t *testing.T, vc *verifCtx, i int) {
 	for k := 0; k < nPay; k++ {
 		p, err := v.genPayment(r, k)
 		if err != nil {
-			t.Fatalf("genPayment: %v", err)
+			verifC08Fatalf(t, "genPayment: %v", err)
 		}
 		pays = append(pays, p)
 		v.mon.mu.Lock()
@@ -752,14 +800,14 @@ func verifC08Case(t *testing.T, vc *verifCtx, i int) {
 	for fl := 0; fl < nFlaps; fl++ {
 		time.Sleep(time.Duration(r.Intn(120)) * time.Millisecond)
 		if err := v.flap(t, r.Bool()); err != nil {
-			t.Fatalf("flap: %v", err)
+			verifC08Fatalf(t, "flap: %v", err)
 		}
 		vc.Count("link_flaps", 1)
 	}
 	for rs := 0; rs < nRestarts; rs++ {
 		time.Sleep(time.Duration(r.Intn(250)) * time.Millisecond)
 		if err := v.restart(t); err != nil {
-			t.Fatalf("restart: %v", err)
+			verifC08Fatalf(t, "restart: %v", err)
 		}
 		vc.Count("cluster_restarts", 1)
 		// old result waiters return when the old switch stops; re-query
@@ -789,7 +837,7 @@ func verifC08Case(t *testing.T, vc *verifCtx, i int) {
 	// restarted before the add was committed never get a result.
 	st, idle := v.waitIdle(40, 120*time.Second)
 	if !idle {
-		t.Fatalf("case %d: network never became idle within the watchdog (inconclusive): %+v", i, st)
+		verifC08Fatalf(t, "case %d: network never became idle within the watchdog (inconclusive): %+v", i, st)
 	}
 	select {
 	case <-done:
@@ -797,7 +845,7 @@ func verifC08Case(t *testing.T, vc *verifCtx, i int) {
 	}
 	st, idle = v.waitIdle(10, 60*time.Second)
 	if !idle {
-		t.Fatalf("case %d: network not idle after results (inconclusive): %+v", i, st)
+		verifC08Fatalf(t, "case %d: network not idle after results (inconclusive): %+v", i, st)
 	}
 	vc.Count("oracle_quiescence", 1)
 	wit := func() any {
@@ -944,6 +992,7 @@ func verifMin(a, b int) int {
 func TestVerifC08(t *testing.T) {
 	vc := verifStart(t, "C08", "threehop")
 	defer vc.Finish()
+	verifC08Ctx = vc
 	if os.Getenv("VERIF_DEBUG") == "2" {
 		lg := btclog.NewSLogger(btclog.NewDefaultHandler(os.Stdout))
 		lg.SetLevel(btclog.LevelDebug)
@@ -958,10 +1007,25 @@ func TestVerifC08(t *testing.T) {
 		t.Run(fmt.Sprintf("case%d", i), func(t *testing.T) {
 			verifC08Case(t, vc, i)
 		})
-		if t.Failed() {
+		// A sub-test that failed only because the race detector reported
+		// something ("race detected during execution of test") does not end
+		// the shard: the reports are classified by the driver.
+		if verifC08HarnessFailed.Load() {
 			return
 		}
 	}
+}
+
+var verifC08HarnessFailed atomic.Bool
+
+var verifC08Ctx *verifCtx
+
+func verifC08Fatalf(t *testing.T, format string, args ...any) {
+	verifC08HarnessFailed.Store(true)
+	if verifC08Ctx != nil {
+		verifC08Ctx.emit(map[string]any{"t": "harness_fail", "detail": fmt.Sprintf(format, args...)})
+	}
+	t.Fatalf(format, args...)
 }
 
 
